@@ -20,12 +20,15 @@ CALL_BUDGET_S = 4
 META = {
     "rule": "every numpy callable registered by numpoly (function and ufunc registries, read at run time) x 14 generic "
             "argument patterns, every numpoly poly-function / constructor / operator / method / property, pickling and str, "
-            "x 13 operand forms chosen to make internal aliasing possible (operands already aligned with each other, the "
+            "x 14 operand forms chosen to make internal aliasing possible (operands already aligned with each other, the "
             "identical object passed twice, overlapping views of one buffer, 0-d, transposed views, bool/int/float/complex "
             "dtypes, polynomial mixed with ndarray/list); byte-level snapshots of every argument are compared before and "
             "after each call, whether it returned or raised; out= targets and the copyto destination are the only exemption "
-            "and must be the only thing that changed. distinct = (callable, pattern, operand form).",
-    "bounds": {"operand_forms": 13, "patterns": 14},
+            "and must be the only thing that changed. Every keyword parameter of every registered implementation and public "
+            "numpoly function is exercised with a menu of values chosen by the kind of its default (bool flipped, None -> 16 "
+            "values, int, float, str menus), and display runs under 7 numpy print-option environments. distinct = (callable, "
+            "pattern, operand form).",
+    "bounds": {"operand_forms": 14, "patterns": 14, "keyword_menu_values": 16, "print_environments": 7},
     "assumptions": ["an argument is observed through shape, strides, dtype, names, keys and raw bytes (base-class view)"],
 }
 
@@ -90,6 +93,12 @@ def operand_forms():
         base = build_checked(dense((4,), "i8", 0))
         return numpy.ndarray.__getitem__(base, slice(0, 3)), numpy.ndarray.__getitem__(base, slice(1, 4))
     forms.append(("overlapping views of one buffer", views))
+
+    def magnitudes():
+        t = [((0, 0), [1e-12, 3.5, -1e-300]), ((1, 0), [1e300, 1e-9, 0.25]), ((0, 2), [5e-324, -2.0, 1e-15])]
+        u = [((0, 0), [1e-9j, 1.0, 2e-20]), ((1, 0), [1e-30, 1e-9, 1e5j]), ((0, 2), [1.0, 1e-13 + 1e-13j, 0.5])]
+        return build_checked(spec(("q0", "q1"), (3,), t, "f8")), build_checked(spec(("q0", "q1"), (3,), u, "c16"))
+    forms.append(("float/complex coefficients from 5e-324 to 1e300", magnitudes))
 
     def mixed():
         return build_checked(dense((3,), "i8", 0)), numpy.array([1, 0, 2])
@@ -199,11 +208,69 @@ def extra_calls():
     return calls
 
 
+KW_MENU = {
+    bool: [True, False],
+    type(None): [True, False, 0, 1, -1, 2, (0,), (0, 1), "C", "F", "K", "unsafe", 1e-3, "i8", float, "q1"],
+    int: [0, 1, 2, -1, 3],
+    float: [0.0, 1e-3, 1.0, 1e10],
+    str: ["C", "F", "K", "A", "unsafe", "same_kind", "left", "right", "raise", "wrap", "clip", "q0", ", "],
+}
+SKIP_KW = {"out", "where"}   # explicit output targets / masks are the business of the "targets" case
+
+
+def keyword_calls():
+    """every keyword parameter of every registered implementation and every public numpoly function, with a small
+    menu of values per kind of default -> (label, g(a, b))"""
+    import inspect
+    funcs = {}
+    for coll in (numpoly.FUNCTION_COLLECTION, numpoly.UFUNC_COLLECTION):
+        for key, impl in coll.items():
+            funcs[getattr(key, "__name__", repr(key))] = impl
+    for nm in dir(numpoly):
+        obj = getattr(numpoly, nm)
+        if inspect.isfunction(obj) and not nm.startswith("_") and nm not in funcs:
+            funcs[nm] = obj
+    for nm in ("save", "savez", "savez_compressed", "savetxt", "load", "loadtxt", "copyto", "set_options", "global_options", "get_options"):
+        funcs.pop(nm, None)
+    out = []
+    for nm in sorted(funcs):
+        f = funcs[nm]
+        try:
+            params = list(inspect.signature(f).parameters.values())
+        except (TypeError, ValueError):
+            continue
+        required = [p for p in params if p.default is inspect.Parameter.empty and p.kind in (p.POSITIONAL_ONLY, p.POSITIONAL_OR_KEYWORD)]
+        if len(required) > 2 or not required:
+            continue
+        for p in params:
+            if p.default is inspect.Parameter.empty or p.name in SKIP_KW or p.kind in (p.VAR_KEYWORD, p.VAR_POSITIONAL):
+                continue
+            menu = KW_MENU.get(type(p.default))
+            if menu is None:
+                continue
+            for val in menu:
+                if val == p.default and type(val) is type(p.default):
+                    continue
+                if len(required) == 1:
+                    out.append((f"{nm}(a, {p.name}={val!r})", lambda a, b, f=f, k=p.name, v=val: f(a, **{k: v})))
+                else:
+                    out.append((f"{nm}(a, b, {p.name}={val!r})", lambda a, b, f=f, k=p.name, v=val: f(a, b, **{k: v})))
+    return out
+
+
+PRINT_ENVS = [{"suppress": True}, {"precision": 2}, {"threshold": 2, "edgeitems": 1}, {"linewidth": 20}, {"suppress": True, "precision": 12},
+              {"floatmode": "fixed"}, {"sign": "+"}]
+
+
 def cases(tier, seed):
     out = []
     nforms = len(operand_forms())
     names = sorted(registry())
+    nkw = len(keyword_calls())
     for fi in range(nforms):
+        for i0 in range(0, nkw, 400):
+            out.append({"k": "keywords", "form": fi, "i0": i0, "i1": min(nkw, i0 + 400)})
+        out.append({"k": "printing", "form": fi})
         for i0 in range(0, len(names), 12):
             out.append({"k": "registry", "form": fi, "i0": i0, "i1": min(len(names), i0 + 12)})
         out.append({"k": "extra", "form": fi})
@@ -287,6 +354,26 @@ def run_case(case, R):
                 args_l, kw_d = tuple(args), dict(kw)
                 observe(R, f"numpoly.call(a, {args}, {kw})", flabel, {"a": a, "args": args_l, "kwargs": kw_d}, lambda: numpoly.call(a, args_l, kw_d))
                 observe(R, f"numpoly.call(a, {args}, {kw}) again with the same dict", flabel, {"a": a, "args": args_l, "kwargs": kw_d}, lambda: numpoly.call(a, args_l, kw_d))
+    elif case["k"] == "keywords":
+        for label, g in keyword_calls()[case["i0"]:case["i1"]]:
+            a, b = maker()
+            if not isinstance(a, numpoly.ndpoly):
+                continue
+            observe(R, label, flabel, {"a": a, "b": b}, lambda: g(a, b))
+    elif case["k"] == "printing":
+        # display under every print-option environment: the text may change, the polynomial may not
+        for env in PRINT_ENVS:
+            for label, g in (("str", str), ("repr", repr), ("array_str", numpoly.array_str), ("array_repr", numpoly.array_repr),
+                             ("numpy.array_str", numpy.array_str), ("numpy.array_repr", numpy.array_repr), ("format", lambda x: format(x, "")),
+                             ("array2string", lambda x: numpoly.array2string(x) if hasattr(numpoly, "array2string") else numpy.array2string(x))):
+                a, b = maker()
+                for nm_, obj in (("a", a), ("b", b)):
+                    if not isinstance(obj, numpoly.ndpoly):
+                        continue
+                    def shown(obj=obj):
+                        with numpy.printoptions(**env):
+                            return g(obj)
+                    observe(R, f"{label}({nm_}) under printoptions{env}", flabel, {"a": a, "b": b}, shown)
     elif case["k"] == "targets":
         # explicit output targets: only the target may change
         for name in ("add", "subtract", "multiply", "negative", "absolute", "floor", "rint", "square", "positive"):
